@@ -124,9 +124,11 @@ theorem bad_crc_no_change (p : Plat) (f : Bytes) (h : crcOk f = false) :
     · simp
   · simp
 
-/-- Switch states equal the last report (OPP): if every card's reported switch states mirror its `old_state`
-(established by the initial read), then after *any* frame — valid, corrupted, for an unknown card — they still do,
-and a valid frame for a known card leaves that card's `old_state` equal to the frame's payload bits. -/
+/-- Switch states equal the last report (OPP): `updCards` is what a frame with a correct CRC does to the card table.
+If every card's reported switch states mirror its `old_state` (established by the initial read), they still do
+afterwards, and if the addressed card exists it now has `old_state` = the frame's payload bits and reported switch
+states = their complement (inputs are active low).  Frames with a wrong CRC change nothing (`bad_crc_no_change`),
+frames for an unknown card leave every card as it was (second conjunct's hypothesis fails, first conjunct holds). -/
 theorem opp_states_equal_last_report (base a n : Nat) (new : List Bool) (cs : List Card) (hn : new.length = n)
     (hinv : ∀ c ∈ cs, c.sw = c.old.map (!·) ∧ c.old.length = n) :
     (∀ c ∈ (updCards base a new cs).1, c.sw = c.old.map (!·) ∧ c.old.length = n) ∧
@@ -244,6 +246,44 @@ theorem writer_silent_until_confirmed_witness :
 /-- non-vacuity of the discipline: confirmed command, its confirmation, next command -/
 example : disciplined {} [.enq ⟨1, some [68, 76, 58]⟩, .step, .recv [68, 76, 58], .enq ⟨2, none⟩, .step] = true := by decide
 
+/-- OPP resynchronises after idle: whatever garbage `g` arrived (in whatever state it left the decoder), after 11 idle
+(EOM) bytes every following well-formed input frame is decoded exactly and the decoder is idle again.  (Unconditional
+self-synchronisation of length-framed data is false, hence the idle bytes.) -/
+theorem opp_resync_after_idle (g : Bytes) (a : Nat) (p : Bytes) (ha : isAddr a = true) (hp : p.length = 5) :
+    feed aStep (feed aStep (feed aStep .idle g).1 (List.replicate 11 EOM)).1 (a :: CMD_INP :: p)
+      = (.idle, [a :: CMD_INP :: p]) :=
+  frame_from_rest _ (eoms_settle _ (feed_needOk g .idle trivial)) a p ha hp
+
+theorem opp_resync_after_idle_matrix (g : Bytes) (a : Nat) (p : Bytes) (ha : isAddr a = true) (hp : p.length = 9) :
+    feed aStep (feed aStep (feed aStep .idle g).1 (List.replicate 11 EOM)).1 (a :: CMD_MTX :: p)
+      = (.idle, [a :: CMD_MTX :: p]) :=
+  matrix_frame_from_rest _ (eoms_settle _ (feed_needOk g .idle trivial)) a p ha hp
+
+/-- Known finding D7, second half (recorded): a lost response is never retried.  However many time-outs pass after
+`send_and_wait_for_response_processed` handed its command over, the command has been written exactly once and the
+caller is still waiting (the time-out covers the hand-over to the queue, not the response). -/
+theorem lost_response_retried_witness (n maxRetries : Nat) :
+    (rRun (rAdvance { maxRetries := maxRetries }) (List.replicate n .timeout)).written = 1 ∧
+    (rRun (rAdvance { maxRetries := maxRetries }) (List.replicate n .timeout)).phase = .waitDone := by
+  have h0 : rAdvance { maxRetries := maxRetries } =
+      { noResp := false, written := 1, maxRetries := maxRetries, phase := .waitDone } := by
+    simp [rAdvance]
+  rw [h0]
+  induction n with
+  | zero => simp [rRun]
+  | succ k ih =>
+    rw [List.replicate_succ]
+    simp only [rRun]
+    have : rStep { noResp := false, written := 1, maxRetries := maxRetries, phase := .waitDone } .timeout
+        = { noResp := false, written := 1, maxRetries := maxRetries, phase := .waitDone } := by
+      simp [rStep]
+    rw [this]; exact ih
+
+/-- … and the part that holds: when the response does arrive the caller is released, from either waiting place. -/
+theorem lost_response_retried_partial (s : RSt) (h : s.phase ≠ .finished) : (rStep s .response).phase = .finished := by
+  unfold rStep rAdvance
+  cases hp : s.phase <;> simp_all
+
 /-- Known finding (recorded): a frame that is not valid UTF-8 makes `parse_incoming_raw_bytes` raise
 (`ignore_decode_errors` is False after connect), i.e. the full statement "every byte stream is decoded without an
 exception" is false; what holds is stated on decodable frames. -/
@@ -262,5 +302,19 @@ theorem fast_ascii_frame_never_raises_partial (f : Bytes) (h : ∀ b ∈ f, b < 
   simp only [Bool.false_eq_true, if_false]
   repeat' split
   all_goals simp
+
+/-- Known finding (recorded), PKONE: `_parse_msg` calls `msg.decode()` unguarded, so a frame with a non-ASCII byte raises
+out of the reader; frames of ASCII bytes are always delivered or dropped as empty. -/
+theorem pkone_noise_undecodable_witness : pkDeliver [80, 83, 255] = .undecodable := by decide
+
+theorem pkone_ascii_frame_never_raises_partial (f : Bytes) (h : ∀ b ∈ f, b < 128) : pkDeliver f ≠ .undecodable := by
+  unfold pkDeliver
+  have : f.any (fun b => decide (128 ≤ b)) = false := by
+    rw [List.any_eq_false]
+    intro b hb
+    have := h b hb
+    simp; omega
+  rw [this]
+  split <;> simp
 
 end MpfVerif.C14
